@@ -653,13 +653,17 @@ class Circuit(Function):
                     gates_for_block.add(new_label)
             else:
                 if right_connect:
+                    new_operands = tuple(
+                        old_to_new_names[operand] for operand in cur_gate.operands
+                    )
                     self._gates[old_to_new_names[cur_gate.label]] = gate.Gate(
                         label=old_to_new_names[cur_gate.label],
                         gate_type=cur_gate.gate_type,
-                        operands=tuple(
-                            old_to_new_names[operand] for operand in cur_gate.operands
-                        ),
+                        operands=new_operands,
                     )
+                    # the replaced base input had no operands: register the new ones
+                    for operand in new_operands:
+                        self._add_user(operand, old_to_new_names[cur_gate.label])
 
         self.set_outputs(
             [output for output in self._outputs if output not in this_connectors]
